@@ -335,6 +335,29 @@ fn main() {
         guarded_case(&mut s, name, |s| knot_case(s, &mut r, name, l, true));
         s.eval_only(&format!("knot {}", name), true);
     }
+    // a diagram with more than 32 crossings (resolution states longer than 32 bits): the 2-strand torus knot T(2,33) and a kinked copy;
+    // 2-strand torus knots simplify quickly, so this is cheap. Clauses: reduced = unreduced, mirror, diagram independence
+    {
+        let w: Vec<i32> = vec![1; 33];
+        if let Some(l) = braid_closure(2, &w) {
+            let desc = "T(2,33) = closure of s1^33";
+            let run = |k: Link, red: bool| guard_timeout(240, move || ss_invariant::<i64>(&k, &2, red)).flatten();
+            let (u, rd, m) = (run(l.clone(), false), run(l.clone(), true), run(l.mirror(), false));
+            let kinked = add_kink(&mut r, &pd_of(&l)).map(|p| link_of(&p));
+            let kk = kinked.clone().and_then(|k| run(k, false));
+            match (u, rd, m) {
+                (Some(u), Some(rd), Some(m)) => {
+                    s.oracle(u == rd, "ss is the same for the reduced and unreduced theories", desc, &format!("{} vs {}", u, rd));
+                    s.oracle(m == -u, "ss changes sign under mirroring", desc, &format!("{} vs mirror {}", u, m));
+                    s.oracle(u.abs() == 32, "ss of the torus knot T(2,n) is ±(n − 1)", desc, &format!("{}", u));
+                    if kinked.is_some() { s.oracle(kk == Some(u), "ss is the same for all diagrams of a knot", &format!("{} with one kink", desc), &format!("{:?} vs {}", kk, u)); }
+                }
+                x => s.oracle(false, "ss_invariant terminates without panic on a knot diagram", desc, &format!("{:?}", x)),
+            }
+            s.eval_only("T(2,33)", true);
+            s.count("large-torus-knot");
+        }
+    }
     // all single crossing changes of 7- (thorough: 6- to 8-) crossing table knots
     {
         let mut ks: Vec<String> = table_names(if thorough { 8 } else { 7 }).into_iter().filter(|n| !n.starts_with('L') && (n.starts_with("7_") || (thorough && (n.starts_with("6_") || n.starts_with("8_"))))).collect();
